@@ -619,13 +619,15 @@ structure TD.Inv (fixed : Bool) (s : TD) : Prop where
   lc : s.close ≠ .idle → s.lClosed = true
   ret : s.close = .returned → s.wg = 0
   leak : fixed = true → s.leaked = 0
+  sync : s.syncRun = true → 0 < s.bgRun
+  ing : 0 < s.ingest → s.syncRun = true
 
 theorem TD.inv_init (fixed : Bool) : TD.Inv fixed {} := by
-  refine ⟨by decide, by decide, by decide, by decide, by decide, by decide, by intro _; rfl⟩
+  refine ⟨by decide, by decide, by decide, by decide, by decide, by decide, by intro _; rfl, by decide, by decide⟩
 
 theorem TD.inv_step (fixed : Bool) (s : TD) (a : TDStep) (s' : TD) (h : TD.Inv fixed s)
     (hs : TD.step fixed s a = some s') : TD.Inv fixed s' := by
-  obtain ⟨hwg, hbg, hloops, htgc, hlc, hret, hleak⟩ := h
+  obtain ⟨hwg, hbg, hloops, htgc, hlc, hret, hleak, hsync, hing⟩ := h
   have htgc1 := htgc.mp
   have htgc2 := htgc.mpr
   clear htgc
@@ -636,11 +638,11 @@ theorem TD.inv_step (fixed : Bool) (s : TD) (a : TDStep) (s' : TD) (h : TD.Inv f
     all_goals first
       | contradiction
       | (simp only [Option.some.injEq] at hs; subst hs
-         refine ⟨?_, ?_, ?_, ⟨?_, ?_⟩, ?_, ?_, ?_⟩ <;> (try simp only []) <;>
+         refine ⟨?_, ?_, ?_, ⟨?_, ?_⟩, ?_, ?_, ?_, ?_, ?_⟩ <;> (try simp only []) <;>
           first
           | assumption
           | omega
-          | (intro hh; first | exact htgc1 hh | exact htgc2 hh | exact hlc hh | exact hret hh | exact hleak hh)
+          | (intro hh; first | exact htgc1 hh | exact htgc2 hh | exact hlc hh | exact hret hh | exact hleak hh | exact hsync hh | exact hing hh)
           | (intro hh; have h1 := hret hh; have h2 := htgc2 (Or.inr hh)
              first | omega | contradiction | (simp [*] at *; done) | (simp [*] at *; omega))
           | (simp [*, RunPc.recvd, LoopSt.exitedN, RunPc.live, LoopSt.live] at *; done)
@@ -650,11 +652,11 @@ theorem TD.inv_step (fixed : Bool) (s : TD) (a : TDStep) (s' : TD) (h : TD.Inv f
   all_goals first
     | contradiction
     | (simp only [Option.some.injEq] at hs; subst hs
-       refine ⟨?_, ?_, ?_, ⟨?_, ?_⟩, ?_, ?_, ?_⟩ <;> (try simp only []) <;>
+       refine ⟨?_, ?_, ?_, ⟨?_, ?_⟩, ?_, ?_, ?_, ?_, ?_⟩ <;> (try simp only []) <;>
         first
         | assumption
         | omega
-        | (intro hh; first | exact htgc1 hh | exact htgc2 hh | exact hlc hh | exact hret hh | exact hleak hh)
+        | (intro hh; first | exact htgc1 hh | exact htgc2 hh | exact hlc hh | exact hret hh | exact hleak hh | exact hsync hh | exact hing hh)
         | (intro hh; have h1 := hret hh; have h2 := htgc2 (Or.inr hh)
            first | omega | contradiction | (simp [*] at *; done) | (simp [*] at *; omega))
         | (simp [*, RunPc.recvd, LoopSt.exitedN, RunPc.live, LoopSt.live] at *; done)
@@ -669,7 +671,7 @@ theorem TD.canProgress_of (fixed : Bool) (s : TD) (a : TDStep) (ha : a ∈ TD.pr
 
 theorem TD.progress_or_stuck (fixed : Bool) (s : TD) (h : TD.Inv fixed s) (hc : s.close = .waiting) :
     TD.canProgress fixed s = true ∨ (fixed = false ∧ 0 < s.sO) := by
-  obtain ⟨hwg, hbg, hloops, htgc, hlc, hret, hleak⟩ := h
+  obtain ⟨hwg, hbg, hloops, htgc, hlc, hret, hleak, hsync, hing⟩ := h
   have htg : s.tgClosed = true := htgc.mpr (Or.inl hc)
   have hl : s.lClosed = true := hlc (by simp [hc])
   by_cases h0 : s.wg = 0
@@ -686,7 +688,18 @@ theorem TD.progress_or_stuck (fixed : Bool) (s : TD) (h : TD.Inv fixed s) (hc : 
   by_cases h4 : s.accept = .running
   · exact TD.canProgress_of fixed s .acceptExit (by simp [TD.progressSteps]) (by simp [TD.step, h4, hl])
   by_cases h5 : 0 < s.bgRun
-  · exact TD.canProgress_of fixed s .bgExit (by simp [TD.progressSteps]) (by simp [TD.step, h5, htg])
+  · -- a context loop is running: peerLoop can return; syncLoop can return unless a sync round is
+    -- in progress, in which case the round's ingestion goroutine can finish
+    by_cases hp : (if s.syncRun then 1 else 0) < s.bgRun
+    · exact TD.canProgress_of fixed s (.bgExit false) (by simp [TD.progressSteps]) (by simp [TD.step, hp, htg])
+    · by_cases hi : 0 < s.ingest
+      · exact TD.canProgress_of fixed s .ingestDone (by simp [TD.progressSteps]) (by simp [TD.step, hi])
+      · have hsr : s.syncRun = true := by
+          cases hs : s.syncRun
+          · simp [hs] at hp; omega
+          · rfl
+        exact TD.canProgress_of fixed s (.bgExit true) (by simp [TD.progressSteps]) (by
+          simp [TD.step, hsr, htg, h5]; omega)
   by_cases h6 : s.accept = .sending ∨ 0 < s.bgSend
   · -- a loop is waiting to hand over its result: Run is before its third receive
     have hlt : s.run.recvd < 3 := by
